@@ -160,7 +160,7 @@ class Sim:
     def scratch(self) -> str:
         if self._scratch is None:
             root = os.path.join(
-                os.environ.get("SFSIM_TMP") or tempfile.gettempdir(), f"sfsim-{os.getpid()}"
+                os.environ.get("SFSIM_TMP") or tempfile.gettempdir(), f"sfsim-{os.getpid():07d}"  # fixed width: path lengths reach byte streams, hence read counts and digests
             )
             os.makedirs(root, exist_ok=True)
             self._scratch = tempfile.mkdtemp(prefix="run-", dir=root)
